@@ -212,6 +212,7 @@ class NDNApp:
     face: Face = None
     registerer: PrefixRegisterer = None
     _autoreg_routes: list[enc.FormalName]
+    _starting_task: aio.Task = None
     logger: logging.Logger
 
     def __init__(self, face=None, client_conf=None, registerer=None):
@@ -736,6 +737,9 @@ class NDNApp:
         """
         async def starting_task():
             for name in self._autoreg_routes:
+                if self._starting_task is not aio.current_task():
+                    # The connection this task belongs to ended with an exception (nobody awaits the task any more)
+                    return
                 await self.register(name)
             if after_start:
                 try:
@@ -754,6 +758,7 @@ class NDNApp:
                     after_start.cancel()
             raise
         task = aio.create_task(starting_task())
+        self._starting_task = task
         self.logger.debug('Connected to NFD node, start running...')
         try:
             await self.face.run()
@@ -761,9 +766,15 @@ class NDNApp:
         except aio.CancelledError:
             self.logger.info('Shutting down')
             ret = False
+        except BaseException:
+            # The start-up task is not awaited on this path: it must not go on registering routes
+            # (on the next connection, if the application reconnects while a command is still pending)
+            self._starting_task = None
+            raise
         finally:
             self.face.shutdown()
-        self._clean_up()
+            # On every path: what is still pending on this connection ends now, not on the next connection
+            self._clean_up()
         await task
         return ret
 
